@@ -349,7 +349,7 @@ func (r *simReader) Read(p []byte) (int, error) {
 }
 
 // ReadOpener is the StorageReadOpener of this store.
-func (s *Store) ReadOpener(_ linking.LinkContext, l datamodel.Link) (io.Reader, error) {
+func (s *Store) ReadOpener(lc linking.LinkContext, l datamodel.Link) (io.Reader, error) {
 	if s.Yield != nil {
 		s.Yield()
 	}
@@ -376,6 +376,18 @@ func (s *Store) ReadOpener(_ linking.LinkContext, l datamodel.Link) (io.Reader, 
 	var f *ReadFault
 	if s.ReadPolicy != nil {
 		f = s.ReadPolicy(nth, c)
+	}
+	// like every real block store, this one honours the context it is handed:
+	// a request made under a context that is already done fails with the
+	// context's error. The simulator itself cancels contexts only through
+	// fault plans (a ReadPolicy may cancel before this point), so on code that
+	// passes its caller's live context through this never fires by itself.
+	if lc.Ctx != nil {
+		if cerr := lc.Ctx.Err(); cerr != nil {
+			s.Fired["ctx-done"]++
+			s.log("ReadOpen", c, "ctx-done", 0)
+			return nil, cerr
+		}
 	}
 	data, have := s.durable[c.KeyString()]
 	if f != nil {
